@@ -222,6 +222,36 @@ func propSpecs() map[string]*PropSpec {
 		Stubs:   []string{"input = harness io.Reader with selector-chosen chunking and failure; output = strings.Builder (engine model); bufio.Scanner interpreted from its source; bytes.IndexByte modelled"},
 		Assume:  []string{"oracle calls the real pql.Compile per statement with the prelude of accepted lets"},
 	})
+	c14 := func(full bool) []RunSpec {
+		var r []RunSpec
+		n := int64(3)
+		if full {
+			n = 6
+		}
+		for i := int64(0); i < n; i++ {
+			for j := int64(0); j < n; j++ {
+				if !full && i != j && (i+j)%2 == 0 {
+					continue
+				}
+				r = append(r, RunSpec{Harness: "H_C14seq", Args: []int64{i, j}, Budget: 4000000})
+				r = append(r, RunSpec{Harness: "H_C14par", Args: []int64{i, j, 0}, Budget: 4000000})
+				r = append(r, RunSpec{Harness: "H_C14par", Args: []int64{i, j, 1}, Budget: 4000000})
+			}
+		}
+		r = append(r, RunSpec{Harness: "H_C14parse", Args: []int64{0, 2}, Budget: 4000000}, RunSpec{Harness: "H_C14parse", Args: []int64{3, 5}, Budget: 4000000})
+		return r
+	}
+	add(&PropSpec{
+		ID: "C14", Title: "compilation is a pure, deterministic, thread-safe function", Threads: true, OwnsPanic: true,
+		Quick:    c14(false),
+		Thorough: c14(true),
+		Covers:   []string{"history-checked", "schedules-checked"},
+		Bounds: map[string]string{"quick": "pairs from 3 programs: call histories i,j,i,j; nil/zero/empty options; every iteration order of every map iterated (symbolic permutation); two concurrent Compile calls sharing their options, first use in the process (cold) and warm, every interleaving at the granularity of visible operations (sync operations and accesses to shared locations written by any explored execution); concurrent Parse/Scan",
+			"thorough": "all pairs from 6 programs"},
+		Outside: []string{"more than two goroutines (follows from pairwise race-freedom; stated, not checked)", "the Go runtime's own scheduler and map implementation", "interleavings finer than visible operations (operations on thread-local or never-written data commute)"},
+		Stubs:   []string{"sync.Once / sync.Mutex: engine models with happens-before clocks", "map iteration order: symbolic permutation"},
+		Assume:  []string{"a data race is confirmed natively by the Go race detector on a -race build of the same harness"},
+	})
 	seeds13 := func(n int64) []RunSpec {
 		var r []RunSpec
 		for i := int64(0); i < 20; i++ {
